@@ -15,6 +15,7 @@ parse_file (const char *file, eav_t *eav)
     char *line = NULL;
     char *cp = line;
     size_t len = 0;
+    size_t size = 0; /* of the getline buffer */
     ssize_t read = 0;
     int passed = 0;
     int failed = 0;
@@ -25,7 +26,7 @@ parse_file (const char *file, eav_t *eav)
         return;
     }
 
-    while ((read = getline (&line, &len, fh)) != EOF) {
+    while ((read = getline (&line, &size, fh)) != EOF) {
         if (read >= 2 && (memcmp(line + read - 2, "\r\n", 2)) == 0)
             line[read-2] = '\0';
         else if (read >= 1 && line[read-1] == '\n')
